@@ -18,3 +18,8 @@ pub mod c04 {
     use super::*;
     include!("c04.rs");
 }
+pub mod c05 {
+    #[allow(unused_imports)]
+    use super::*;
+    include!("c05.rs");
+}
